@@ -77,7 +77,7 @@ func genCase(rt *rapid.T) Case {
 		g.MacroName = "zm1"
 		// slip evaluates a macro expansion only when it is built with backquote (documented by its example and
 		// tests), so the macro is written that way; the reference evaluator gets the equivalent list form
-		c.Macros = []string{"(defmacro zm1 (x) `(+ ,x 1))"}
+		c.Macros = []string{"(defmacro zm1 (zq) `(+ ,zq 1))"}
 	}
 	for i := 1; i <= nvar; i++ {
 		name := fmt.Sprintf("*zg%d*", i)
